@@ -474,3 +474,94 @@ Print Assumptions C16_parse_transaction_field_gen_complete.
 Print Assumptions C16_parse_transaction_field_gen_eq_refuted.
 Print Assumptions C16_parse_global_field_gen_eq.
 Print Assumptions C16_parse_acct_params_field_gen_eq.
+
+(* ------------------------------------------------------------------------------------------------------------
+   Extension: signed immediates.  `frame_dig i` / `frame_bury i` take an int8 in the AVM; the model reads the
+   immediate of these two classes signed (Parse.parse_sint, parameter form PSInt) and of no other class; from
+   Lemmas/SignedLemmas.v (and LineGenLemmas PART 7 for the regenerated _parse_int) *)
+From Coq Require Import List String NArith ZArith Bool Arith.
+From Tealer Require Import Tables Syntax Parse Cfg KeysGen LineGen ShapeGen LineGenLemmas ShapeGenLemmas SignedLemmas.
+
+(* round trip for every integer immediate (no range condition; every int8 in particular) *)
+Theorem C16_roundtrip_frame_dig : forall z, parse_line (str_of_instr (frame_dig z)) = Ok (Some (frame_dig z)).
+Proof. exact roundtrip_frame_dig. Qed.
+Theorem C16_roundtrip_frame_bury : forall z, parse_line (str_of_instr (frame_bury z)) = Ok (Some (frame_bury z)).
+Proof. exact roundtrip_frame_bury. Qed.
+Theorem C16_roundtrip_frame_int8 : forall z, (-128 <= z <= 127)%Z ->
+  parse_line (str_of_instr (frame_dig z)) = Ok (Some (frame_dig z)) /\
+  parse_line (str_of_instr (frame_bury z)) = Ok (Some (frame_bury z)).
+Proof. exact roundtrip_frame_int8. Qed.
+(* `frame_dig -k` / `frame_bury -k` denote the offset -k, for every k, and print back as written *)
+Theorem C16_parse_frame_dig_neg : forall k,
+  parse_line ("frame_dig -" ++ string_of_N k)%string = Ok (Some (frame_dig (Z.opp (Z.of_N k)))).
+Proof. exact parse_frame_dig_neg. Qed.
+Theorem C16_parse_frame_bury_neg : forall k,
+  parse_line ("frame_bury -" ++ string_of_N k)%string = Ok (Some (frame_bury (Z.opp (Z.of_N k)))).
+Proof. exact parse_frame_bury_neg. Qed.
+Theorem C16_print_frame_neg : forall p,
+  str_of_instr (frame_dig (Z.neg p)) = ("frame_dig -" ++ string_of_N (Npos p))%string /\
+  str_of_instr (frame_bury (Z.neg p)) = ("frame_bury -" ++ string_of_N (Npos p))%string.
+Proof. exact print_frame_neg. Qed.
+Theorem C16_parse_frame_spellings : forall n,
+  parse_line ("frame_dig " ++ string_of_N n)%string = Ok (Some (frame_dig (Z.of_N n))) /\
+  parse_line ("frame_bury " ++ string_of_N n)%string = Ok (Some (frame_bury (Z.of_N n))).
+Proof. exact parse_frame_dig_spellings. Qed.
+Theorem C16_sint_spellings : forall n,
+  parse_sint (string_of_N n) = Ok (Z.of_N n) /\ parse_sint ("0x" ++ hex_of_N n)%string = Ok (Z.of_N n) /\
+  parse_sint ("0" ++ oct_of_N n)%string = Ok (Z.of_N n).
+Proof. exact parse_sint_spellings. Qed.
+(* the class data of the regenerated table is defined on the signed form, independently of the offset *)
+Theorem C16_frame_dig_denotes : forall z v,
+  cls_of (frame_dig z) = "FrameDig"%string /\ params_of (frame_dig z) = (PSInt z :: nil) /\
+  stack_pop_size (frame_dig z) = Some 0 /\ stack_push_size (frame_dig z) = Some 1 /\
+  ins_version (frame_dig z) = Some 8%N /\ ins_mode (frame_dig z) = Some MAny /\ ins_cost v (frame_dig z) = Some 1%N.
+Proof. exact frame_dig_denotes. Qed.
+Theorem C16_frame_bury_denotes : forall z v,
+  cls_of (frame_bury z) = "FrameBury"%string /\ params_of (frame_bury z) = (PSInt z :: nil) /\
+  stack_pop_size (frame_bury z) = Some 1 /\ stack_push_size (frame_bury z) = Some 1 /\
+  ins_version (frame_bury z) = Some 8%N /\ ins_mode (frame_bury z) = Some MAny /\ ins_cost v (frame_bury z) = Some 1%N.
+Proof. exact frame_bury_denotes. Qed.
+(* the signed form is produced exactly for the two signed classes, on every line / program the parser accepts *)
+Theorem C16_signed_rules :
+  filter (fun r => signed_imm_class (fst (snd r))) parser_rules =
+  (("frame_dig ", ("FrameDig", SInt)) :: ("frame_bury ", ("FrameBury", SInt)) :: nil)%string.
+Proof. exact signed_rules. Qed.
+Theorem C16_parse_line_signed_exact : forall line i, parse_line line = Ok (Some i) -> signed_spec i.
+Proof. exact parse_line_signed_exact. Qed.
+Theorem C16_parse_line_signed_only : forall line i z, parse_line line = Ok (Some i) -> In (PSInt z) (params_of i) ->
+  cls_of i = "FrameDig"%string \/ cls_of i = "FrameBury"%string.
+Proof. exact parse_line_signed_only. Qed.
+Theorem C16_parse_line_frame_form : forall line i, parse_line line = Ok (Some i) ->
+  (cls_of i = "FrameDig"%string -> exists z, i = frame_dig z) /\ (cls_of i = "FrameBury"%string -> exists z, i = frame_bury z).
+Proof. exact parse_line_frame_form. Qed.
+Theorem C16_parse_program_signed_exact : forall src p, parse_program src = Ok p -> forall i, In i p -> signed_spec (i_op i).
+Proof. exact parse_program_signed_exact. Qed.
+(* the regenerated _parse_int against parse_sint: equal on plainly spelled immediates, the model never accepts more *)
+Theorem C16_parse_sint_gen_eq_partial : forall x, sint_plain x = true -> parse_int_gen x = of_res (parse_sint x).
+Proof. exact parse_sint_gen_eq_partial. Qed.
+Theorem C16_parse_sint_gen_complete : forall x z, parse_sint x = Ok z -> parse_int_gen x = Some z.
+Proof. exact parse_sint_gen_complete. Qed.
+(* the regenerated lambdas of the signed rules against parse_imm, through the dispatcher *)
+Theorem C16_signed_dispatch_eq_partial : forall line key cls sh,
+  first_rule line parser_rules = Some (key, cls, sh) -> signed_imm_class cls = true ->
+  exists g, first_rule_gen line shape_rules_gen = Some (key, g) /\
+    (forall x, sint_plain x = true -> g x = model_imm_x cls sh x) /\
+    (forall x ps, parse_imm cls sh x = Ok ps -> g x = Val (VObj cls (map embed_param ps))).
+Proof. exact signed_dispatch_eq_partial. Qed.
+Theorem C16_signed_dispatch_eq_refuted :
+  exists g, first_rule_gen "frame_dig -1_0" shape_rules_gen = Some ("frame_dig "%string, g) /\
+    first_rule "frame_dig -1_0" parser_rules = Some ("frame_dig ", "FrameDig", SInt)%string /\
+    g "-1_0"%string = Val (VObj "FrameDig" (VInt (-10) :: nil)) /\ model_imm_x "FrameDig" SInt "-1_0" = Raise ValueError /\
+    sint_plain "-1_0" = false.
+Proof. exact signed_dispatch_eq_refuted. Qed.
+
+Print Assumptions C16_roundtrip_frame_dig.
+Print Assumptions C16_roundtrip_frame_bury.
+Print Assumptions C16_parse_frame_dig_neg.
+Print Assumptions C16_parse_frame_bury_neg.
+Print Assumptions C16_frame_dig_denotes.
+Print Assumptions C16_parse_line_signed_exact.
+Print Assumptions C16_parse_program_signed_exact.
+Print Assumptions C16_parse_sint_gen_eq_partial.
+Print Assumptions C16_parse_sint_gen_complete.
+Print Assumptions C16_signed_dispatch_eq_partial.
